@@ -332,7 +332,7 @@ theorem c03_vd_bare_string (d : String) : dimsOfAtom (.s d) = dimsOfAtom (.t [d]
 theorem c03_vd_str (k d : String) (hd : d.isEmpty = false) :
     parse (some [k]) (.str d) = .ok [(k, [.s d])] ∧ parse (some [k]) (.str d) = parse (some [k]) (.dict [(.s k, .t [d])]) := by
   have h1 : parse (some [k]) (.str d) = .ok [(k, [.s d])] := by
-    simp [parse, hd, dedup, applyItems, applyKey, assign, Gen.varDimsStrRefused]
+    simp [parse, hd, dedup, applyItems, applyKey, assign, Gen.varDimsStrRefused, Gen.Default.varDimsStrRefused]
   refine ⟨h1, ?_⟩
   rw [h1]
   simp [parse, dedup, applyItems, applyKey, assign, dimsOfAtom]
@@ -341,7 +341,7 @@ theorem c03_vd_str (k d : String) (hd : d.isEmpty = false) :
 theorem c03_vd_str_needs_single (names : List String) (d : String) (hd : d.isEmpty = false) (h : names.length ≠ 1) :
     parse (some names) (.str d) = .error .value := by
   have : ((names.length : Int) ≠ 1) := by omega
-  simp [parse, hd, Gen.varDimsStrRefused, this]
+  simp [parse, hd, Gen.varDimsStrRefused, Gen.Default.varDimsStrRefused, this]
 
 /-- "no dimensions": `None`, `{}`, `()` / `[]` and `''` all give every output the empty tuple -/
 theorem c03_vd_empty (names : List String) :
